@@ -8,11 +8,11 @@ export const id = 'C02';
 // alphabet: [source text, decoded value, class]
 export const SIGMA = [
   [' ', ' ', 'sp'], ['\t', '\t', 'tab'], ['\n', '\n', 'lf'], ['\r', '\r', 'cr'], ['\r\n', '\r\n', 'crlf'],
-  [' ', ' ', 'nbsp'], ['&nbsp;', ' ', 'nbspEnt'], [' ', ' ', 'emsp'], ['　', '　', 'idsp'],
+  [' ', ' ', 'nbsp'], ['&nbsp;', ' ', 'nbspEnt'], [' ', ' ', 'emsp'], ['　', '　', 'idsp'], ['\u2028', '\u2028', 'ls'],
   ['a', 'a', 'a'], ['b', 'b', 'b'], ['&amp;', '&', 'amp'],
 ];
 export const POSITIONS = ['only', 'beforeExpr', 'afterExpr', 'betweenExpr', 'betweenEl'];
-const HOSTS = ['b', 'fragShort', 'Fragment', 'KeepAlive', 'custom'];
+const HOSTS = ['b', 'fragShort', 'Fragment', 'KeepAlive', 'custom', 'customUpper', 'customUnderscore'];
 
 function* strings(maxLen) {
   // all sequences over SIGMA of length 1..maxLen
@@ -35,6 +35,8 @@ function hostTag(b, host) {
     case 'Fragment': return { kind: 'Fragment', src: 'Fragment' };
     case 'KeepAlive': b.importNamed('vue', 'KeepAlive'); return { kind: 'KeepAlive', src: 'KeepAlive', i: b.leaf('KeepAlive') };
     case 'custom': return { kind: 'maybeCustom', name: 'x-el', src: 'x-el' };
+    case 'customUpper': return { kind: 'maybeCustom', name: 'X-Panel', src: 'X-Panel' };
+    case 'customUnderscore': return { kind: 'maybeCustom', name: '_widget', src: '_widget' };
     default: throw new Error(host);
   }
 }
@@ -54,7 +56,7 @@ function textChildren(b, pos, seq, G) {
 }
 
 const PER_MODULE = 100;
-const OPTS = { customElementPatterns: ['^x-'] };
+const OPTS = { customElementPatterns: ['^x-', '^X-', '^_w'] };
 
 function* textModules(items, prefix, hostOf) {
   // items: [{seq, pos}]
@@ -235,7 +237,7 @@ export async function check(group, records) {
 export function meta({ tier }) {
   const L = tier === 'quick' ? 4 : 5;
   return {
-    rule: `G-TEXT: every string of length 1..${L} over a 12-symbol whitespace alphabet {space, tab, LF, CR, CRLF, NBSP, &nbsp;, U+2003, U+3000, a, b, &amp;} as JSX text in 5 positions (only child, before/after/between expression containers, between elements), 100 per module, plus seeded random strings of length 4..12; G-CHILD: all child-kind sequences of length <= ${tier === 'quick' ? 3 : 4} over 12 child kinds on 5 hosts (element, <>, <Fragment>, KeepAlive, custom element) plus random longer ones. distinct_nontrivial = distinct (position, host, symbol-class string) resp. (host, child-kind sequence).`,
+    rule: `G-TEXT: every string of length 1..${L} over a 13-symbol whitespace alphabet {space, tab, LF, CR, CRLF, NBSP, &nbsp;, U+2003, U+3000, U+2028, a, b, &amp;} as JSX text in 5 positions (only child, before/after/between expression containers, between elements), 100 per module, plus seeded random strings of length 4..12; G-CHILD: all child-kind sequences of length <= ${tier === 'quick' ? 3 : 4} over 12 child kinds on 5 hosts (element, <>, <Fragment>, KeepAlive, custom element) plus random longer ones. distinct_nontrivial = distinct (position, host, symbol-class string) resp. (host, child-kind sequence).`,
     exhaustive: [`all strings of length <= ${L} over the 12-symbol alphabet x 5 positions`],
     assumptions: ['reference = the standard JSX text rule quoted in the statement, applied to the decoded text', 'a text of only spaces/tabs without a line break may be kept or dropped (both accepted)', 'entities that decode to ASCII whitespace are not generated'],
   };
